@@ -72,6 +72,7 @@ def run(ctx):
     effects(ctx)
     cachekey(ctx)
     noshare(ctx)
+    shared_state(ctx)
     nomutate(ctx)
     rep.notes['trusted_base'] = ['python ast', 'ndverif abstract interpreter and numpy summaries',
                                  'determinism of numpy/scipy kernels']
@@ -267,6 +268,58 @@ def noshare(ctx):
         rep.check(not stores, 'R-NOSHARE', 'finite_difference.%s' % cname, fd.where(ci.node),
                   {'attribute_stores_in_class': stores[:3]}, 'stateless holder (shared by all rule objects)', cname,
                   key='holder-state %s' % cname)
+
+
+def reachable_objects(obj, limit=400):
+    """ids -> path of the objects of the analysed program reachable from obj (attributes, lists, tuples, dicts)."""
+    out, todo = {}, [('self', obj)]
+    while todo and len(out) < limit:
+        path, v = todo.pop()
+        if isinstance(v, Obj):
+            if id(v) in out:
+                continue
+            out[id(v)] = (path, v)
+            for k, w in v.attrs.items():
+                todo.append(('%s.%s' % (path, k), w))
+        elif isinstance(v, (list, tuple)):
+            for i, w in enumerate(v):
+                todo.append(('%s[%d]' % (path, i), w))
+        elif isinstance(v, dict):
+            for k, w in v.items():
+                todo.append(('%s[%r]' % (path, k), w))
+    return out
+
+
+def shared_state(ctx):
+    """Two independently constructed objects: nothing that a call of the first one writes is reachable from the second."""
+    rep = ctx.rep
+    core = ctx.repo.module('core')
+    for cls, dim in (('Derivative', None), ('Jacobian', 2), ('Hessdiag', 2), ('Hessian', 2)):
+        for m1, m2 in (('central', 'forward'), ('forward', 'forward'), ('complex', 'complex')):
+            P = Pipeline(ctx.repo)
+            I = P.interp
+            label = '%s(%s) and %s(%s), default step options' % (cls, m1, cls, m2)
+            try:
+                o1, x1 = P.build(cls, m1, None if cls == 'Hessian' else 2, dim=dim, n=(1 if cls == 'Derivative' else None))
+                o2, x2 = P.build(cls, m2, None if cls == 'Hessian' else 2, dim=dim, n=(2 if cls == 'Derivative' else None))
+                written = {}
+                I.on_setattr = lambda o, a, v: written.setdefault(id(o), (o, set()))[1].add(a) if isinstance(o, Obj) else None
+                try:
+                    I.getattr(o1, '_derivative')(x1, (), {})
+                finally:
+                    I.on_setattr = None
+                reach2 = reachable_objects(o2)
+                shared = ['%s (%s) attributes %s' % (reach2[i][0], written[i][0].cls.name, sorted(written[i][1])[:3])
+                          for i in written if i in reach2]
+                rep.check(not shared, 'R-NOSHARE', 'core.%s.__init__' % cls, core.relpath,
+                          {'objects_written_by_the_first_call': len(written), 'of_those_reachable_from_the_second_object': shared[:3]},
+                          'two objects share no object that a call writes to (only the rule memo is process wide)', label,
+                          key='shared-instance')
+            except InterpRaise as exc:
+                rep.violation('R-NOSHARE', 'core.%s.__init__' % cls, core.relpath, {'raises': exc.exc_name, 'message': exc.msg[:100]},
+                              'construction and a call succeed', label, key='shared-instance raises')
+            except AnalysisError as exc:
+                rep.undecided('R-NOSHARE', 'core.%s.__init__' % cls, exc, label)
 
 
 def reachable_arrays(obj, limit=400):
